@@ -321,3 +321,42 @@ def strip_space(interp, s, left, right):
         finally:
             st.scopes = saved
     return wrap(r)
+
+
+def contains_link(interp, container, ch):
+    """`ch in container` is being asked for a one-character constant ch: for every character class the container
+    is known to (measure applied to it) that provably excludes ch, state  A(container) ==> ch not in container
+    (a valid consequence of the definition of the measure, instantiated on demand)."""
+    reg = interp.st.ghost.get('__charclasses__')
+    if not reg or not isinstance(ch, str) or len(ch) != 1:
+        return
+    st = interp.st
+    t = strings._s(container)
+    if z3.is_string_value(t):
+        return
+    for cc in reg:
+        if t.get_id() not in cc.relevant:
+            continue
+        key = ('__charclass_in__', cc.index, t.get_id(), ch)
+        if key in st.ghost:
+            continue
+        st.ghost[key] = True
+        phi_c = z3.simplify(cc.at(strings._charval(ch)))
+        if z3.is_false(phi_c) or (not z3.is_true(phi_c) and st.must_hold(z3.Not(phi_c))):
+            st._add(z3.Implies(cc.fn(t), z3.Not(z3.Contains(t, z3.StringVal(ch)))))
+
+
+def contains_link_pattern(interp, t, u):
+    """a constant pattern u is searched in the term t: apply contains_link to every piece of t, for every
+    character of u"""
+    reg = interp.st.ghost.get('__charclasses__')
+    if not reg or not z3.is_string_value(u) or strings._has_escape_val(u):
+        return
+    uv = u.as_string()
+    if not uv or len(uv) > 4:
+        return
+    for p in strings._flat_concat(strings.norm(interp, t)) + [t]:
+        if z3.is_string_value(p):
+            continue
+        for c in sorted(set(uv)):
+            contains_link(interp, wrap(p), c)
